@@ -88,7 +88,7 @@ def run_family(fam, prop_id, tier, known, stats):
             if 'UNMODELLED' in raw:
                 discarded += 1
             elif mo != obs:
-                disagreements.append(dict(family=fam.name, case=fam.describe(c), model=mo[:4000], impl=obs[:4000],
+                disagreements.append(dict(family=fam.name, case=fam.describe(c), model=mo[:60000], impl=obs[:60000],
                                           trace=c.get('_trace')))
         for (pid, sig, what) in fam.oracle(c, obs):
             if pid != prop_id and prop_id != 'ALL':
